@@ -2025,8 +2025,19 @@ class Controller:
                             component.specification.workflowAttributes['shutdownOn'])
                           )
 
+            # VV: This method holds no lock: finish() may be called on the component (kill_all_components(),
+            # _stopComponents()) after its POSTMORTEM notification passed the `finishCalled is False` filter. Whoever
+            # called finish() has decided the final state of the component: do not restart it, do not overwrite its state
+            if component.finishCalled and component.isAlive() is False:
+                self.log.info("finish() was called for %s before its POSTMORTEM notification was handled - "
+                              "will neither restart it nor change its state (%s)" % (reference, component.state))
+                return
+
             if self._restartComponent(component) == experiment.model.codes.restartCodes["RestartInitiated"]:
                 self.log.info("Restarted component with exitReason %s and returnCode %s" % (exitReason, returncode))
+            elif component.finishCalled and component.isAlive() is False:
+                self.log.info("finish() was called for %s while its restart was being prepared - "
+                              "will not change its state (%s)" % (reference, component.state))
             else:
                 TransitionComponentToFinalState(component, exitReason, returncode)
         except Exception as error:
